@@ -218,6 +218,16 @@ def _cgdp(ctx, repo):
         ctx.check(have == {(c1, a1, c2, a2), (c1, a2, c2, a1)}, "R-REGISTER", "both orientations (c1@a1,c2@a2) and (c1@a2,c2@a1) have a variable", f, creates[0],
                   f"found keys {sorted(have)}: a placement of the two computations on the two agents in the other order would cost nothing")
         # the only way to skip a (pair of ends, pair of agents) is that its variable already exists: `continue` under `<its key> in betas`
+        # (written as a guard clause or as an enclosing `if`: every condition that dominates a registration inside the loop over the pairs)
+        for key, cr, reg, blk_, _i in keys:
+            for g in ff.guards_at(reg):
+                if g.kind == "if" and any(n is g.node for n in ast.walk(comp_loop.node)):
+                    tt = norm(g.node.test)
+                    okg = (not g.pol and tt in (f"({c1}, {a1}, {c2}, {a2}) in betas", f"({c1}, {a2}, {c2}, {a1}) in betas")) or \
+                          (g.pol and tt in (f"({c1}, {a1}, {c2}, {a2}) not in betas", f"({c1}, {a2}, {c2}, {a1}) not in betas"))
+                    ctx.check(okg, "R-REGISTER", "a pair is skipped only when its own beta variable already exists", f, g.node,
+                              "a de-duplication keyed by less than (c1, a1, c2, a2) (e.g. the pair of computations alone) creates the variables for the first pair of agents only: "
+                              "communication over every other pair of agents drops out of the objective")
         skips = [x for x in ast.walk(comp_loop.node) if isinstance(x, (ast.Continue, ast.Break))]
         for sk in skips:
             fs = {(norm(t_), p_) for t_, p_ in facts_at(ff, sk)}
